@@ -70,7 +70,8 @@ func (r *Reader) Read(p []byte) (int, error) {
 		// words, check for trailing data after a full-length final chunk.
 		// Hopefully, the underlying reader supports returning EOF even if it
 		// had previously returned an EOF to ReadFull.
-		if n, err := r.src.Read(make([]byte, 1)); n > 0 || err == nil {
+		probe := make([]byte, 1)
+		if n, err := io.ReadFull(r.src, probe); n > 0 {
 			r.err = errors.New("trailing data after end of encrypted file")
 		} else if err != io.EOF {
 			r.err = fmt.Errorf("non-EOF error reading after end of encrypted file: %w", err)
